@@ -132,6 +132,15 @@ BASES = {
 }
 
 
+LOW, HIGH, IDLE = 400, 3000, 900       # idle_client_in_transaction_timeout values (ms) and the silence used against them
+BASES["T"] = dict(copy.deepcopy(BASES["A"]), general={"idle_client_in_transaction_timeout": HIGH})
+BASES["S"] = dict(copy.deepcopy(BASES["A"]), general={"idle_client_in_transaction_timeout": LOW})
+
+
+def idle_of(sem):
+    return (sem.get("general") or {}).get("idle_client_in_transaction_timeout", 0) or 0
+
+
 def mut(base, f, **general):
     s = copy.deepcopy(BASES[base])
     f(s["pools"])
@@ -207,6 +216,25 @@ def valid_kinds():
 
     def userpm(P): P["pa"]["users"][0]["pool_mode"] = "session"
     K.append(("pa-user-pool_mode", "A", mut("A", userpm), 0, {}))
+    # general-section settings with a client silent inside its open transaction across the reload (longer than the
+    # NEW timeout, shorter than the OLD one): the transaction finishes under the settings it started with
+    K.append(("general-idle_timeout-set", "A", mut("A", ident, idle_client_in_transaction_timeout=LOW), 0, {"idle": IDLE}))
+    K.append(("general-idle_timeout-lowered", "T", mut("A", ident, idle_client_in_transaction_timeout=LOW), 0, {"idle": IDLE}))
+    K.append(("general-idle_timeout-raised", "S", mut("A", ident, idle_client_in_transaction_timeout=HIGH), 0, {"idle": IDLE}))
+    K.append(("general-idle_timeout-removed", "S", mut("A", ident), 1, {"idle": IDLE}))
+    K.append(("general-connect_timeout", "A", mut("A", ident, connect_timeout=350), 0, {"idle": 300}))
+    K.append(("general-healthcheck", "A", mut("A", ident, healthcheck_timeout=400, healthcheck_delay=20000), 0, {"idle": 300}))
+    K.append(("general-ban_time+idle-lowered", "T", mut("A", ident, ban_time=5, idle_client_in_transaction_timeout=LOW), 2, {"idle": IDLE}))
+    K.append(("idle-lowered+pa-server-replaced", "T", mut("A", servers, idle_client_in_transaction_timeout=LOW), 0, {"idle": IDLE}))
+
+    def stmt(P): P["pa"]["users"][0]["statement_timeout"] = 500
+    K.append(("pa-user-statement_timeout", "A", mut("A", stmt), 0, {"idle": 300}))
+    # removal of a pool that is PAUSEd when the reload comes (the removed pool is resumed and dropped, its user refused)
+    K.append(("pb-removed/paused", "A", mut("A", delpb), 0, {"pause": [("pb", "u")]}))
+    K.append(("pa-removed/paused", "A", mut("A", delpa), 0, {"pause": [("pa", "u")]}))
+    K.append(("pa-user-u-removed/paused", "B", mut("B", deluser_u), 0, {"pause": [("pa", "u")]}))
+    K.append(("pa-changed+pb-removed+pc-added/paused", "A", mut("A", combo), 0, {"pause": [("pb", "u")]}))
+    K.append(("pa-removed-B/both-users-paused", "B", mut("B", delpa), 0, {"pause": [("pa", "u"), ("pa", "v")]}))
     return K
 
 
@@ -378,8 +406,8 @@ def file_text(f):
 
 # ------------------------------------------------------------------------------------ scenario script
 
-def q(c, sql, label):
-    return [{"op": "send", "c": c, "msgs": [{"t": "Q", "sql": sql}]}, {"op": "recv", "c": c, "until": "Z", "timeout_ms": 3000, "label": label}]
+def q(c, sql, label, timeout=None):
+    return [{"op": "send", "c": c, "msgs": [{"t": "Q", "sql": sql}]}, {"op": "recv", "c": c, "until": "Z", "timeout_ms": timeout or 3000, "label": label}]
 
 
 class Script:
@@ -396,6 +424,8 @@ class Script:
         self.mode_at_connect = {}
         self.connect_step = {}
         self.never = set()     # clients whose (pool, user) did not exist when they connected
+        self.tmo = {}          # client -> idle-in-transaction timeout its current transaction started with (by file)
+        self.straddle_timeout = False
         self.keeps = set()     # clients that checked out a server of a session-mode pool: they keep it until they leave
 
     def mark(self, extra_ms=0):
@@ -435,13 +465,31 @@ class Script:
             # session mode: this client never checks out again (no model op); the statements still have to work
             self.steps += q(c, "BEGIN", "keep:%s" % c) + q(c, self.sql(c), "keep:%s" % c)
             return
-        self.steps += q(c, "BEGIN", "op%d:begin" % k) + q(c, self.sql(c), "op%d:first" % k)
+        self.steps += q(c, "BEGIN", "op%d:begin" % k, self.case["extra"].get("pause") and 900) + q(c, self.sql(c), "op%d:first" % k, self.case["extra"].get("pause") and 900)
         self.ops.append(("begin", c))
+        self.tmo[c] = idle_of(self.inforce)
         self.mark()
         # client.rs:1081-1083: the pool AND transaction_mode are refreshed at every checkout (D2 regression: before a374b10
         # the mode was the one of the pool the client had connected to)
         if self.session_mode(c) and c not in self.never:
             self.keeps.add(c)
+
+    def idle(self, c, ms):
+        """the client sends nothing for ms inside its open transaction; returns whether, by the files alone, the transaction
+        is expected to time out (timeout it STARTED with, 0 = none)"""
+        k = len(self.ops)
+        self.steps.append({"op": "sleep", "ms": ms})
+        self.steps.append({"op": "recv", "c": c, "until": "Z", "timeout_ms": 80, "label": "op%d:idle" % k})
+        self.ops.append(("idle", c, ms))
+        self.mark()
+        t = self.tmo.get(c, 0)
+        return bool(t) and t <= ms and c not in self.never
+
+    def pause(self, db, usr, verb="PAUSE"):
+        k = len(self.ops)
+        self.steps += q("admq", "%s %s,%s" % (verb, db, usr), "op%d:admin" % k)
+        self.ops.append((verb.lower(), db, usr))
+        self.mark()
 
     def inside(self, c):
         """a statement in the middle of the open transaction (no model op)"""
@@ -518,10 +566,18 @@ def build_script(case):
         for c, _, _, _ in cl[1:]:
             s.txn(c)
         s.begin("A")
+    for db, usr in case["extra"].get("pause", []):
+        s.pause(db, usr)
     s.reload(0)
+    idle = case["extra"].get("idle")
     if t == "inside":
-        s.inside("A")
-        s.end("A")
+        if idle and s.idle("A", idle):
+            s.straddle_timeout = True        # it started under the OLD, lower timeout: over, by the old rules
+        else:
+            s.inside("A")
+            s.end("A")
+    for db, usr in case["extra"].get("pause", []):
+        s.pause(db, usr, "RESUME")           # nothing to resume if the pool is gone; a kept one must not stay paused
     # new connections after the reload: a pool that exists only if it was added; the pools of the base
     new1 = case["files"][0]["sem"]
     s.connect("C", "pc", "u", "pw")
@@ -531,6 +587,14 @@ def build_script(case):
         s.probe_connect("A3", auth[0], auth[1], auth[3])     # old password: must be refused once the new file is in effect
         s.connect("A2", auth[0], auth[1], auth[2])           # new password
     live = [c for c, _, _, _ in cl] + ["C", "B2"] + (["A2"] if auth else [])
+    if idle:
+        s.begin("A")                         # a NEW transaction: the value of the file now in force applies
+        if not s.idle("A", idle):
+            s.end("A")
+    for n_, (db, usr) in enumerate(case["extra"].get("pause", [])):
+        pw = {"u": "pw", "v": "pwv"}[usr]
+        s.connect("R%d" % n_, db, usr, pw)   # a new login of the removed user after RESUME
+        live.append("R%d" % n_)
     for c in live:
         s.txn(c)
     s.reload(1)
@@ -556,7 +620,7 @@ def coq_cfg(sem, ids):
         pd = ids["pdef"].setdefault(canon_pool(p, n), 10 + len(ids["pdef"]))
         ps.append("(%d, (%d, [%s]))" % (DBID[n], pd, "; ".join(str(USERID[u["username"]]) for u in p["users"])))
     g = ids["gen"].setdefault(canon_general(sem), 1 + len(ids["gen"]))
-    return "{| cgen := %d; cpools := [%s] |}" % (g, "; ".join(ps))
+    return "{| cgen := %d; cidle := %d; cpools := [%s] |}" % (g, idle_of(sem), "; ".join(ps))
 
 
 def build_fails(f, bd_down):
@@ -597,7 +661,13 @@ def coq_ops(case, script):
             c = cid.setdefault(o[1], len(cid))
             out.append("OConnect %d %d %d" % (c, DBID[o[2]], USERID[o[3]]))
         else:
+            if o[0] in ("pause", "resume"):
+                out.append("%s (%d, %d)" % ("OPause" if o[0] == "pause" else "OResume", DBID[o[1]], USERID[o[2]]))
+                continue
             c = cid.setdefault(o[1], len(cid))
+            if o[0] == "idle":
+                out.append("OIdle %d %d" % (c, o[2]))
+                continue
             out.append("%s %d" % ({"begin": "OBegin", "end": "OEnd", "disconnect": "ODisconnect"}[o[0]], c))
     return "trace2 idh empty_world [%s]" % "; ".join(out), ids, cid
 
@@ -615,10 +685,11 @@ def model_traces(cases_scripts):
     for v, (ids, cid) in zip(vals, meta):
         steps = []
         for x in vlib.parse_coq(v):
-            kind, a, b, c, view, objs = x      # Coq prints left-nested tuples flat
+            kind, a, b, c, view, objs, (cidle, mpaused) = x      # Coq prints left-nested tuples flat
             gen, cpools, pools, servers = view
             steps.append({"obs": (kind, a, b, c), "gen": gen, "cpools": [(d, pd, tuple(us)) for d, (pd, us) in cpools],
-                          "pools": [tuple(p) for p in pools], "servers": [tuple(s) for s in servers], "objs": [tuple(o) for o in objs]})
+                          "pools": [tuple(p) for p in pools], "servers": [tuple(s) for s in servers], "objs": [tuple(o) for o in objs],
+                          "cidle": cidle, "paused": sorted(tuple(k) for k in mpaused)})
         out.append({"steps": steps, "ids": ids, "cid": cid})
     return out
 
